@@ -53,6 +53,23 @@ def known_finding_input(s: str) -> bool:
     return False
 
 
+def src_limits():
+    """Error-limit and long look-ahead documents: more than 11 faults of one kind; tag lines far from their Scenario / Examples line."""
+    out = []
+    for k in (10, 11, 12, 14):
+        out.append((f"limit:tags-in-description:{k}", "Feature: f\n  text\n" + "".join(f"  @bad tag{i}\n" for i in range(k)), "en"))
+        out.append((f"limit:ragged:{k}", "Feature: f\n  Scenario: s\n" + "".join(f"    Given x{i}\n      | a |\n      | a | b |\n" for i in range(k)), "en"))
+        out.append((f"limit:mixed:{k}", "Feature: f\n  Scenario: s\n" + "".join(f"    Given x{i}\n      | a |\n      | a | b |\n  @bad tag{i}\n  junk{i}\n" for i in range(k)), "en"))
+        out.append((f"limit:same-tag-error-twice:{k}", "Feature: f\n  Scenario: s\n    Given x\n      | a |\n      | a | b |\n  @ok\n  @bad tag\n" + "  @ok\n" * k + "  Scenario: t\n", "en"))
+    for n in (5, 31, 32, 33, 64, 200):
+        skip = "".join(["  # c\n", "\n", "  @t\n"][i % 3] for i in range(n))
+        out.append((f"lookahead:scenario:{n}", "Feature: f\n  @a\n" + skip + "  Scenario: s\n    Given x\n", "en"))
+        out.append((f"lookahead:examples:{n}", "Feature: f\n  Scenario Outline: s\n    Given <h>\n  @a\n" + skip + "    Examples:\n      | h |\n      | 1 |\n", "en"))
+        out.append((f"lookahead:rule:{n}", "Feature: f\n  Scenario: s\n    Given x\n  @a\n" + skip + "  Rule: r\n", "en"))
+        out.append((f"lookahead:eof:{n}", "Feature: f\n  Scenario: s\n    Given x\n  @a\n" + skip, "en"))
+    return out
+
+
 def record_all(sources, modes=("collect",), listing=False):
     recs = []
     for name, s, dialect in sources:
@@ -88,9 +105,9 @@ def traces(rep: Reporter, recs: list[dict], label: str, batch: int = 1500) -> No
 
 # ------------------------------------------------------------------------------------------------ spec -> code
 def menu(rep: Reporter, menu_lines: list[str], n: int, mode: str = "collect", max_errs: int = 2, invariants: list[str] | None = None,
-         label: str = "menu") -> None:
+         label: str = "menu", prefix: list[int] | None = None) -> None:
     prop = rep.prop
-    cnt, mism, res, behs = RP.enumerate_and_replay(menu_lines, n, mode, max_errs, tag=f"{prop}-menu", invariants=invariants)
+    cnt, mism, res, behs = RP.enumerate_and_replay(menu_lines, n, mode, max_errs, tag=f"{prop}-menu", invariants=invariants, prefix=prefix)
     rep.add_tlc(f"MC_Menu[{label},N={n},{mode}]", res, f"{cnt} behaviours replayed through Parser.parse/Compiler.compile; invariants {invariants}")
     rep.traces += cnt
     for inv in sorted(set(res.invariant_violations)):
@@ -146,3 +163,21 @@ def grow(rep: Reporter, menu_lines: list[str], starts, invariants: list[str] | N
         if prop in own or not own:
             rep.violation({"kind": "replay:" + f}, {"engine": "grow", "what": f"replayed behaviour differs in {f}", "source": m["text"], "mode": "collect",
                                                     "exc": m["exc"], "spec": m["spec"].get(f), "impl": m["impl"].get(f)})
+
+
+def layering(rep: Reporter, menu_lines: list[str], n: int, label: str = "layering") -> None:
+    """MC_Layering: the big-step code-point parser and the small-step kind-level parser agree on every document over the menu."""
+    from common import Scratch, run_tlc, write_dialects, cp
+    with Scratch(f"{rep.prop}-layering") as sc:
+        write_dialects(sc, ["en", "fr"])
+        sc.write_json("menu.json", [cp(m) for m in menu_lines])
+        sc.write("MC_Layering.cfg", f"SPECIFICATION Spec\nCONSTANT MaxLines = {n}\nINVARIANT Inv_GrainsAgree\nVIEW L0View2\nCHECK_DEADLOCK FALSE\n")
+        src = open(sc.path("MC_Layering.tla")).read().replace("=" * 77, "L0View2 == <<L0View, vDoc>>\n" + "=" * 77)
+        sc.write("MC_Layering.tla", src)
+        res = run_tlc(sc, "MC_Layering", timeout=3000, extra=["-continue"])
+    if "Parsing or semantic analysis failed" in res.out or not res.finished or any("Invariant" not in x and "violated" not in x for x in res.errors):
+        raise MachineryError("MC_Layering did not complete:\n" + "\n".join(res.out.splitlines()[-40:]))
+    rep.add_tlc(f"MC_Layering[{label},N={n}]", res, "Gherkin.tla (big step, code points) = ParserL0.tla (small steps, kinds) on every document over the menu: Inv_GrainsAgree")
+    for inv in sorted(set(res.invariant_violations)):
+        rep.violation({"kind": "spec-invariant", "invariant": inv}, {"engine": "MC_Layering", "what": f"{inv} violated: the two grains of the parser specification disagree",
+                                                                     "tlc_tail": res.out[-3000:]})
